@@ -35,6 +35,7 @@ import (
 	"github.com/logrange/logrange/server"
 	cmodel "github.com/logrange/range/pkg/cluster/model"
 	"github.com/logrange/range/pkg/kv/inmem"
+	"github.com/logrange/range/pkg/records"
 	"github.com/logrange/range/pkg/records/journal"
 	"github.com/logrange/range/pkg/records/journal/ctrlr"
 	"github.com/logrange/range/pkg/transport"
@@ -141,6 +142,16 @@ func (s *stack) init(cfg *server.Config) (err error) {
 	return nil
 }
 
+// abandon: the provider's lock may be held for ever (it panicked inside a locked region): no component is shut down
+func (s *stack) abandon() {
+	if s.stopped {
+		return
+	}
+	s.stopped = true
+	s.cancel()
+	os.RemoveAll(s.dir)
+}
+
 // stop: what server.Start does when its context ends (cancel, Shutdown of every component in reverse order)
 func (s *stack) stop() {
 	if s.stopped {
@@ -152,10 +163,16 @@ func (s *stack) stop() {
 	}
 	s.cancel()
 	if s.inj != nil {
-		func() {
+		done := make(chan struct{})
+		go func() {
+			defer close(done)
 			defer func() { recover() }()
 			s.inj.Shutdown()
 		}()
+		select {
+		case <-done:
+		case <-time.After(e2eHang): // a component does not shut down: the scripts' own observations say why
+		}
 	}
 	os.RemoveAll(s.dir)
 }
@@ -168,6 +185,10 @@ type obsItf struct {
 	mu   sync.Mutex
 	net  map[string]int // journal name -> acquisitions minus releases made through this factory
 	idx  map[string]int // journal name -> partition index (0..NP-1), -1 unknown
+
+	faultIn     int // > 0: the faultIn-th Get from now fails
+	faultCancel context.CancelFunc
+	fired       bool
 }
 
 func partIndex(tl tag.Line) int {
@@ -207,7 +228,59 @@ func (f *obsItf) GetJournal(ctx context.Context, src string) (tag.Set, journal.J
 }
 
 func (f *obsItf) Itearator(j journal.Journal, tmRange *model.TimeRange) journal.Iterator {
-	return f.real.Itearator(j, tmRange)
+	return &faultIt{Iterator: f.real.Itearator(j, tmRange), f: f}
+}
+
+// ---- fault injection: every journal iterator the cursors read through is a faultIt. Armed with k by the driver, the k-th
+// Get from then on (on whichever iterator) does not reach the journal: it returns errReadFault (what a chunk read error
+// looks like to the cursor), or - kind "cancel" - first cancels the context of the request the driver has just issued and
+// returns context.Canceled (a request abandoned between two reads).
+
+var errReadFault = fmt.Errorf("injected read fault: chunk could not be read")
+
+type faultIt struct {
+	journal.Iterator
+	f *obsItf
+}
+
+func (it *faultIt) Get(ctx context.Context) (records.Record, error) {
+	if err := it.f.fire(); err != nil {
+		return nil, err
+	}
+	return it.Iterator.Get(ctx)
+}
+
+func (f *obsItf) arm(k int, cancel context.CancelFunc) {
+	f.mu.Lock()
+	f.faultIn, f.faultCancel, f.fired = k, cancel, false
+	f.mu.Unlock()
+}
+
+// disarm returns whether the fault has fired since it was armed
+func (f *obsItf) disarm() bool {
+	f.mu.Lock()
+	defer f.mu.Unlock()
+	f.faultIn, f.faultCancel = 0, nil
+	return f.fired
+}
+
+func (f *obsItf) fire() error {
+	f.mu.Lock()
+	defer f.mu.Unlock()
+	if f.faultIn <= 0 {
+		return nil
+	}
+	f.faultIn--
+	if f.faultIn > 0 {
+		return nil
+	}
+	f.fired = true
+	if f.faultCancel != nil {
+		f.faultCancel()
+		f.faultCancel = nil
+		return context.Canceled
+	}
+	return errReadFault
 }
 
 // Release: a partition handed back more often than it was acquired is recorded and NOT passed on (the real
@@ -251,6 +324,7 @@ type obsCur struct {
 	w        *obsProv
 	req      *e2eReq
 	released int32
+	fault    int32 // a Get of this request returned an error other than io.EOF
 	dead     int32 // the provider closed the cursor under this request (recorded): nothing is passed on to it any more
 	nexts    int32 // Next() calls = records consumed
 	offs     int32 // Offset(n) with n != 0 seen
@@ -278,7 +352,11 @@ func (c *obsCur) Get(ctx context.Context) (model.LogEvent, tag.Line, error) {
 	if !c.touch("Get") {
 		return model.LogEvent{}, tag.EmptyLine, io.EOF
 	}
-	return c.Cursor.Get(ctx)
+	le, tl, err := c.Cursor.Get(ctx)
+	if err != nil && err != io.EOF {
+		atomic.StoreInt32(&c.fault, 1) // the read failed (an injected fault, unless the implementation has one of its own)
+	}
+	return le, tl, err
 }
 func (c *obsCur) Offset(ctx context.Context, offs int) {
 	if !c.touch("Offset") {
@@ -306,6 +384,7 @@ type pevent struct {
 	id    uint64 // release: State.Id
 	pos   string // release: State.Pos
 	offs  bool   // release: Offset was used
+	fault bool   // release: the reading loop ended on a read fault
 	op    string // op: the Gallina op
 	snap  string
 }
@@ -324,6 +403,9 @@ type obsProv struct {
 func (w *obsProv) GetOrCreate(ctx context.Context, state cursor.State, cache bool) (res cursor.Cursor, err error) {
 	w.mu.Lock()
 	defer w.mu.Unlock()
+	if atomic.LoadInt32(&w.x.dead) != 0 {
+		return nil, fmt.Errorf("the script is over")
+	}
 	rq := w.cur
 	w.cur = nil
 	if rq == nil && w.prep {
@@ -347,17 +429,11 @@ func (w *obsProv) GetOrCreate(ctx context.Context, state cursor.State, cache boo
 	}
 	ev := &pevent{kind: "get", req: rq}
 	var c cursor.Cursor
-	func() {
-		defer func() {
-			if pv := recover(); pv != nil {
-				w.x.fail("e2e-panic:get", fmt.Sprint(pv))
-				err = fmt.Errorf("panic in GetOrCreate: %v", pv)
-			}
-		}()
-		c, err = w.real.GetOrCreate(ctx, state, cache)
-	}()
+	if !w.x.call("get", func() { c, err = w.real.GetOrCreate(ctx, state, cache) }) {
+		c, err = nil, fmt.Errorf("GetOrCreate panicked or did not return")
+	}
 	rq.cacheSeen = cache
-	if want := rq.srvWait() > 0 || rq.srvLimit() > backend.QueryMaxLimit; want != cache {
+	if want := rq.srvWait() > 0 || rq.srvLimit() > 10000; want != cache {
 		w.x.fail("e2e-cache-decision", fmt.Sprintf("request %d (%s, WaitTimeout %d, Limit %d): GetOrCreate was called with cache=%v", rq.r, rq.via, rq.srvWait(), rq.srvLimit(), cache))
 	}
 	switch {
@@ -394,6 +470,9 @@ func (w *obsProv) GetOrCreate(ctx context.Context, state cursor.State, cache boo
 // inUseIntact (w.mu held): no cursor a request is using has been closed (crsr.String shows the number of open journal
 // descriptors). A closed one is recorded and cut off from its user, who would otherwise run into a nil iterator.
 func (w *obsProv) inUseIntact() {
+	if atomic.LoadInt32(&w.x.dead) != 0 {
+		return
+	}
 	for c, oc := range w.out {
 		if atomic.LoadInt32(&oc.dead) == 0 && strings.HasPrefix(fmt.Sprint(c), "{descs:0,") {
 			atomic.StoreInt32(&oc.dead, 1)
@@ -405,6 +484,9 @@ func (w *obsProv) inUseIntact() {
 func (w *obsProv) Release(ctx context.Context, curs cursor.Cursor) (st cursor.State) {
 	w.mu.Lock()
 	defer w.mu.Unlock()
+	if atomic.LoadInt32(&w.x.dead) != 0 {
+		return cursor.State{}
+	}
 	oc, ok := curs.(*obsCur)
 	if !ok {
 		w.x.fail("e2e-foreign-release", "Release of a cursor GetOrCreate did not return")
@@ -421,18 +503,11 @@ func (w *obsProv) Release(ctx context.Context, curs cursor.Cursor) (st cursor.St
 	if w.out[oc.Cursor] == oc {
 		delete(w.out, oc.Cursor)
 	}
-	func() {
-		defer func() {
-			if pv := recover(); pv != nil {
-				w.x.fail("e2e-panic:release", fmt.Sprint(pv))
-			}
-		}()
-		if atomic.LoadInt32(&oc.dead) == 0 {
-			st = w.real.Release(ctx, oc.Cursor)
-		}
-	}()
+	if atomic.LoadInt32(&oc.dead) == 0 {
+		w.x.call("release", func() { st = w.real.Release(ctx, oc.Cursor) })
+	}
 	w.inUseIntact()
-	ev := &pevent{kind: "release", req: oc.req, k: int(atomic.LoadInt32(&oc.nexts)), id: st.Id, pos: st.Pos, offs: atomic.LoadInt32(&oc.offs) != 0}
+	ev := &pevent{kind: "release", req: oc.req, k: int(atomic.LoadInt32(&oc.nexts)), id: st.Id, pos: st.Pos, offs: atomic.LoadInt32(&oc.offs) != 0, fault: atomic.LoadInt32(&oc.fault) != 0}
 	oc.req.relId, oc.req.relPos, oc.req.relK = st.Id, st.Pos, ev.k
 	ev.snap = w.x.snapshot()
 	w.log = append(w.log, ev)
@@ -447,17 +522,20 @@ type E2EStep struct {
 	Via     string `json:"via,omitempty"` // rpc | backend
 	ReqId   string `json:"id,omitempty"`  // "0" | chain:<n> (the id the n-th answered request returned) | busy (id of a waiting request) | <number>
 	Q       int    `json:"q,omitempty"`
-	Pos     string `json:"pos,omitempty"` // head | tail | bad | last | old
+	Pos     string `json:"pos,omitempty"` // head | Head | HEAD | tail | Tail | TAIL | bad | last | old
 	Limit   int    `json:"limit,omitempty"`
 	Wait    int    `json:"wait,omitempty"`
 	Offset  int    `json:"offs,omitempty"`
-	Special string `json:"sp,omitempty"` // disconnect | cancel
+	Special string `json:"sp,omitempty"`    // disconnect | cancel
+	Fault   int    `json:"fault,omitempty"` // > 0: the Fault-th read of a record fails ...
+	FaultK  string `json:"fk,omitempty"`    // ... err: with a read error; cancel: because the request's context is cancelled there (backend)
 	Part    int    `json:"part,omitempty"`
 	N       int    `json:"n,omitempty"` // tick: hours
 }
 
 type E2EReplay struct {
 	Kind  string    `json:"kind"` // e2e
+	Name  string    `json:"name,omitempty"`
 	Seed  uint64    `json:"seed"`
 	Max   int       `json:"max"`
 	End   string    `json:"end"` // sweep | stop | cancel-stop
@@ -523,7 +601,9 @@ type e2e struct {
 	nextTs  int64
 	written [NP]int
 	nontriv bool
-	broken  bool // the implementation failed before the script could start
+	abortCh chan struct{} // closed with the first violation
+	dead    int32         // the provider panicked: hands off
+	broken  bool          // the implementation failed before the script could start
 }
 
 func (x *e2e) violation() *Violation {
@@ -532,12 +612,55 @@ func (x *e2e) violation() *Violation {
 	return x.viol
 }
 
+// fail records the first violation and ends the script: nothing is waited for any more. After a panic inside the provider
+// (its lock may be left locked) the provider is not touched again at all.
 func (x *e2e) fail(class, detail string) {
 	x.mu.Lock()
 	if x.viol == nil {
 		x.viol = &Violation{Class: class, Detail: detail}
+		close(x.abortCh)
+	}
+	if strings.HasPrefix(class, "e2e-panic") || strings.HasPrefix(class, "e2e-hang") {
+		atomic.StoreInt32(&x.dead, 1)
 	}
 	x.mu.Unlock()
+}
+
+const e2eHang = 25 * time.Second
+
+// call runs one interaction with the provider (or a hook that walks its ring) under a watchdog: a panic or a call that
+// does not come back (a corrupted ring is walked for ever, a lock was left locked) is a verdict, and the end of the script
+func (x *e2e) call(what string, f func()) bool {
+	if atomic.LoadInt32(&x.dead) != 0 {
+		return false
+	}
+	done := make(chan interface{}, 1)
+	go func() {
+		defer func() { done <- recover() }()
+		f()
+	}()
+	tm := time.NewTimer(e2eHang)
+	defer tm.Stop()
+	select {
+	case pv := <-done:
+		if pv != nil {
+			x.fail("e2e-panic:"+what, fmt.Sprint(pv))
+			return false
+		}
+		return true
+	case <-tm.C:
+		x.fail("e2e-hang:"+what, fmt.Sprintf("%s did not come back within %v", what, e2eHang))
+		return false
+	}
+}
+
+func (x *e2e) aborted() bool {
+	select {
+	case <-x.abortCh:
+		return true
+	default:
+		return false
+	}
 }
 
 func (x *e2e) tag(t string) {
@@ -547,7 +670,13 @@ func (x *e2e) tag(t string) {
 }
 
 func (x *e2e) snapshot() string {
-	ids := cursor.VC15CachedIds(x.st.prov)
+	if atomic.LoadInt32(&x.dead) != 0 {
+		return GNone
+	}
+	var ids []uint64
+	if !x.call("cached-ids", func() { ids = cursor.VC15CachedIds(x.st.prov) }) {
+		return GNone
+	}
 	idl := make([]string, len(ids))
 	for i, id := range ids {
 		idl[i] = GN(id)
@@ -562,7 +691,7 @@ func newE2E(rp *E2EReplay) (*e2e, error) {
 	if err != nil {
 		return nil, err
 	}
-	x := &e2e{rp: rp, st: st, tags: map[string]bool{}, chains: map[uint64]*chain{}, curQ: map[uint64]int{}, nextTs: 1000}
+	x := &e2e{rp: rp, st: st, abortCh: make(chan struct{}), tags: map[string]bool{}, chains: map[uint64]*chain{}, curQ: map[uint64]int{}, nextTs: 1000}
 	// the data: every partition gets a few records, globally increasing timestamps (the merge order of a
 	// multi-partition cursor is then a function of the number of records read)
 	for round := 0; round < 3; round++ {
@@ -686,7 +815,13 @@ func (x *e2e) absorb() {
 			}
 		case "release":
 			rq := ev.req
-			x.items = append(x.items, GApp("QFinish", GNat(rq.r), GN(uint64(ev.k)), GApp("QoOk", GN(ev.id)), ev.snap))
+			end := "REnd"
+			if ev.fault {
+				end = "RFault"
+				x.tags["e2e-read-fault"] = true
+				x.nontriv = true
+			}
+			x.items = append(x.items, GApp("QFinish", GNat(rq.r), GN(uint64(ev.k)), end, GApp("QoOk", GN(ev.id)), ev.snap))
 			if ev.id != 0 {
 				ch := x.chains[ev.id]
 				if ch == nil {
@@ -718,14 +853,7 @@ func (x *e2e) absorb() {
 
 func (x *e2e) logOp(op string, f func()) {
 	x.w.mu.Lock()
-	var pv interface{}
-	func() {
-		defer func() { pv = recover() }()
-		f()
-	}()
-	if pv != nil {
-		x.fail("e2e-panic:"+op, fmt.Sprint(pv))
-	}
+	x.call(op, f)
 	x.w.inUseIntact()
 	x.w.log = append(x.w.log, &pevent{kind: "op", op: op, snap: x.snapshot()})
 	x.w.mu.Unlock()
@@ -781,6 +909,13 @@ func (x *e2e) doReq(s E2EStep) error {
 	rq.ReqId = x.resolveId(s.ReqId)
 	rq.posKind, rq.startKnown = "head", true
 	switch s.Pos {
+	case "head", "Head", "HEAD":
+		rq.posStr = s.Pos // "" and any spelling of "head" are the same corner position (applyCornerPos lower-cases)
+		if s.Pos == "head" && s.Q%2 == 0 {
+			rq.posStr = ""
+		}
+	case "TAIL", "Tail":
+		rq.posKind, rq.posStr, rq.startKnown = "tail", s.Pos, false
 	case "tail":
 		rq.posKind, rq.posStr, rq.startKnown = "tail", "tail", false
 	case "bad":
@@ -802,9 +937,23 @@ func (x *e2e) doReq(s E2EStep) error {
 	x.w.mu.Lock()
 	x.w.cur = rq
 	x.w.mu.Unlock()
+	if s.Fault > 0 {
+		defer func() {
+			if x.itf.disarm() {
+				x.tag("e2e-fault-fired:" + s.FaultK)
+			}
+		}()
+	}
 	req := &api.QueryRequest{ReqId: rq.ReqId, Query: queries[s.Q].Text, Pos: rq.posStr, Limit: s.Limit, WaitTimeout: s.Wait, Offset: s.Offset}
 	ctx, cancel := context.WithTimeout(context.Background(), e2eDeadline)
 	rq.cancel = cancel
+	if s.Fault > 0 {
+		if s.FaultK == "cancel" && s.Via == "backend" {
+			x.itf.arm(s.Fault, cancel)
+		} else {
+			x.itf.arm(s.Fault, nil)
+		}
+	}
 	if s.Via == "rpc" {
 		cl, err := rpc.NewClient(transport.Config{ListenAddr: x.st.addr})
 		if err != nil {
@@ -865,15 +1014,19 @@ func (x *e2e) doReq(s E2EStep) error {
 			cancel()
 			return nil
 		}
+	case <-x.abortCh:
+		return nil
 	case <-tm.C:
-		return fmt.Errorf("e2e: request %d neither reached the provider nor was answered within %v", rq.r, e2eDeadline)
+		return x.never(rq, "neither reached the provider nor was answered")
 	}
 	if rq.overAtGet != "" {
 		// GetOrCreate failed: the answer must be an error
 		select {
 		case <-rq.done:
+		case <-x.abortCh:
+			return nil
 		case <-tm.C:
-			return fmt.Errorf("e2e: request %d was not answered within %v", rq.r, e2eDeadline)
+			return x.never(rq, "was not answered")
 		}
 		cancel()
 		if rq.callErr == nil && rq.res != nil && rq.res.Err == nil {
@@ -908,9 +1061,17 @@ func (x *e2e) doReq(s E2EStep) error {
 			rq.cancel()
 			x.tag("e2e-cancel")
 		}
+	case <-x.abortCh:
+		return nil
 	case <-tm.C:
-		return fmt.Errorf("e2e: request %d got a cursor and then neither released it nor waited within %v", rq.r, e2eDeadline)
+		return x.never(rq, "got a cursor and then neither released it nor waited")
 	}
+	return nil
+}
+
+// never: a request that does not get anywhere within the deadline is a verdict (the script ends)
+func (x *e2e) never(rq *e2eReq, what string) error {
+	x.fail("e2e-request-never-finished", fmt.Sprintf("request %d (%s, ReqId %d, query %q, Pos %q, Limit %d, WaitTimeout %d) %s within %v", rq.r, rq.via, rq.ReqId, queries[rq.q].Text, rq.posStr, rq.limit, rq.wait, what, e2eDeadline))
 	return nil
 }
 
@@ -918,11 +1079,20 @@ func (x *e2e) doReq(s E2EStep) error {
 func (x *e2e) finished(rq *e2eReq, tm *time.Timer) error {
 	select {
 	case <-rq.done:
+	case <-x.abortCh:
+		return nil
 	case <-tm.C:
-		return fmt.Errorf("e2e: request %d released its cursor but was not answered within %v", rq.r, e2eDeadline)
+		return x.never(rq, "released its cursor but was not answered")
 	}
 	rq.cancel()
 	if rq.special != "" || rq.callErr != nil || rq.res == nil {
+		return nil
+	}
+	if rq.oc != nil && atomic.LoadInt32(&rq.oc.fault) != 0 {
+		// the reading loop ended on a read fault: the cursor was released (we are here), the answer is the error
+		if rq.res.Err == nil {
+			x.fail("e2e-answer-mismatch", fmt.Sprintf("request %d: a read failed with an error other than EOF, the answer carries no error", rq.r))
+		}
 		return nil
 	}
 	if rq.res.Err != nil {
@@ -975,6 +1145,8 @@ func (x *e2e) reap(d time.Duration, want func(*e2eReq) bool) error {
 			default:
 				x.fail("e2e-cursor-left-busy", fmt.Sprintf("request %d (%s, ReqId %d, Limit %d, WaitTimeout %d) was answered after its wait without releasing its cursor (id %d)", rq.r, rq.via, rq.ReqId, rq.limit, rq.wait, rq.curId))
 			}
+		case <-x.abortCh:
+			rest = append(rest, rq)
 		case <-tm.C:
 			rest = append(rest, rq)
 		}
@@ -1003,6 +1175,9 @@ func hasPart(q, p int) bool {
 func (x *e2e) tooLate() bool { return time.Since(x.st.started) > 20*time.Second }
 
 func (x *e2e) exec(s E2EStep) error {
+	if x.aborted() {
+		return nil
+	}
 	switch s.Kind {
 	case "req":
 		return x.doReq(s)
@@ -1017,7 +1192,7 @@ func (x *e2e) exec(s E2EStep) error {
 			return nil
 		}
 		x.w.mu.Lock()
-		cursor.VC15Advance(x.st.prov, time.Duration(s.N)*unit)
+		x.call("advance", func() { cursor.VC15Advance(x.st.prov, time.Duration(s.N)*unit) })
 		x.w.log = append(x.w.log, &pevent{kind: "op", op: GApp("OTick", GZ(int64(s.N))), snap: x.snapshot()})
 		x.w.mu.Unlock()
 		x.logOp("OSweepTime", func() { cursor.VC15SweepByTime(x.st.prov) })
@@ -1039,8 +1214,14 @@ func (x *e2e) quiesced(final bool) {
 		x.fail("e2e-cursor-left-busy", fmt.Sprintf("request %d (%s, ReqId %d) has been answered but never released its cursor (id %d)", oc.req.r, oc.req.via, oc.req.ReqId, oc.req.curId))
 		break
 	}
-	ids := cursor.VC15CachedIds(x.st.prov)
-	nm, nb, _, _ := cursor.VC15Sizes(x.st.prov)
+	var ids []uint64
+	var nm, nb int
+	if !x.call("sizes", func() {
+		ids = cursor.VC15CachedIds(x.st.prov)
+		nm, nb, _, _ = cursor.VC15Sizes(x.st.prov)
+	}) {
+		return
+	}
 	if nm != nb || nm != len(ids) {
 		x.fail("e2e-cache-inconsistent", fmt.Sprintf("len(curs)=%d ring=%d", nm, nb))
 	}
@@ -1079,6 +1260,19 @@ func (x *e2e) quiesced(final bool) {
 }
 
 func (x *e2e) finish() error {
+	if x.aborted() {
+		// a violation is on record: whoever still waits is sent home, nothing more is observed
+		for _, rq := range x.waiters {
+			rq.cancel()
+		}
+		if atomic.LoadInt32(&x.dead) != 0 {
+			x.st.abandon()
+		} else {
+			x.st.stop()
+		}
+		x.absorb()
+		return nil
+	}
 	all := func(*e2eReq) bool { return true }
 	if x.rp.End == "cancel-stop" && len(x.waiters) > 0 {
 		// the server's main context ends while requests wait: each gives its cursor back, then the components shut down
@@ -1101,7 +1295,7 @@ func (x *e2e) finish() error {
 	if x.rp.End == "sweep" {
 		big := 2 * (e2eIdle + e2eBusy + 1)
 		x.w.mu.Lock()
-		cursor.VC15Advance(x.st.prov, time.Duration(big)*unit)
+		x.call("advance", func() { cursor.VC15Advance(x.st.prov, time.Duration(big)*unit) })
 		x.w.log = append(x.w.log, &pevent{kind: "op", op: GApp("OTick", GZ(int64(big))), snap: x.snapshot()})
 		x.w.mu.Unlock()
 		x.logOp("OSweepTime", func() { cursor.VC15SweepByTime(x.st.prov) })
@@ -1144,11 +1338,13 @@ func (x *e2e) gen(r *Rng) E2EStep {
 		s.ReqId = fmt.Sprintf("chain:%d", r.Intn(8))
 	case w < 90:
 		s.ReqId = "busy"
-	default:
+	case w < 98:
 		s.ReqId = fmt.Sprint(1000 + r.Intn(3))
+	default:
+		s.ReqId = "18446744073709551615" // the largest id
 	}
 	id := x.resolveId(s.ReqId)
-	s.Q = r.PickInt(0, 0, 1, 2, 2, 3, 4, 8, 9)
+	s.Q = r.PickInt(0, 0, 1, 2, 2, 3, 4, 8, 9, 10)
 	if ch := x.chains[id]; ch != nil && !r.Chance(1, 7) {
 		s.Q = ch.q
 	} else if q, ok := x.cursorQuery(id); ok && !r.Chance(1, 7) {
@@ -1163,13 +1359,14 @@ func (x *e2e) gen(r *Rng) E2EStep {
 	case w < 62:
 		s.Pos = "old"
 	case w < 86:
-		s.Pos = "head"
+		s.Pos = r.PickStr("head", "head", "head", "Head", "HEAD")
 	case w < 93:
-		s.Pos = "tail"
+		s.Pos = r.PickStr("tail", "tail", "TAIL", "Tail")
 	default:
 		s.Pos = "bad"
 	}
-	s.Limit = r.PickInt(1, 1, 2, 2, 3, 5, 0, 9999, 10000, 10001, 20000, -1)
+	// around QueryMaxLimit; the ends of the types the limit travels in (over rpc a uint32: -1 and 2^32+3 arrive as 2^32-1 and 3)
+	s.Limit = r.PickInt(1, 1, 2, 2, 3, 5, 0, 0, 9999, 10000, 10001, 20000, -1, 2147483647, 4294967299, 1<<40)
 	s.Wait = r.PickInt(0, 0, 0, 0, 0, 1, 1, 1, -1, 61)
 	if queries[s.Q].Kind != "parts" && s.Wait > 0 {
 		// a waiting query over no partition never returns (emptyCur.WaitNewData returns at once, the querier's loop spins):
@@ -1180,9 +1377,23 @@ func (x *e2e) gen(r *Rng) E2EStep {
 		s.Wait = 0
 	}
 	if r.Chance(1, 12) {
-		s.Offset = r.PickInt(-2, -1, 1, 2)
+		s.Offset = r.PickInt(-2, -1, 1, 2, 1000, -1000) // +-1000: beyond the data in either direction
 	}
-	if s.Wait > 0 && r.Chance(1, 4) {
+	if queries[s.Q].Kind == "parts" && s.Limit != 0 && r.Chance(1, 6) {
+		// a read fault in the middle of the page: the 1st..4th read of a record fails (a multi-partition cursor reads ahead
+		// in every partition, so the fault may also hit the first record); backend: sometimes a cancelled context instead
+		s.Fault = r.PickInt(1, 1, 2, 3, 4)
+		s.FaultK = "err"
+		if s.Via == "backend" && r.Chance(1, 3) {
+			s.FaultK = "cancel"
+		}
+		s.Wait, s.Special = 0, ""
+	}
+	if s.Fault == 0 && s.Wait == 0 && s.Limit > 0 && s.Offset == 0 && queries[s.Q].Kind == "parts" && strings.EqualFold(s.Pos, "head") && r.Chance(1, 5) {
+		// the largest wait the queriers accept; from the head there is a record to deliver, so the request does not wait
+		s.Wait = 60
+	}
+	if s.Fault == 0 && s.Wait > 0 && s.Wait < 60 && r.Chance(1, 4) {
 		if s.Via == "rpc" {
 			s.Special = "disconnect"
 		} else {
@@ -1190,6 +1401,60 @@ func (x *e2e) gen(r *Rng) E2EStep {
 		}
 	}
 	return s
+}
+
+// e2eCorpus: fixed scripts that run first on every check
+func e2eCorpus() []E2EReplay {
+	req := func(via, id string, q int, pos string, limit, wait int) E2EStep {
+		return E2EStep{Kind: "req", Via: via, ReqId: id, Q: q, Pos: pos, Limit: limit, Wait: wait}
+	}
+	fault := func(s E2EStep, k int, kind string) E2EStep {
+		s.Fault, s.FaultK = k, kind
+		return s
+	}
+	var res []E2EReplay
+	for _, via := range []string{"backend", "rpc"} {
+		// a read fault in the middle of a page, cursor not cached / cached (the id must be usable again at once) / on a hit
+		res = append(res, E2EReplay{Kind: "e2e", Name: "read-fault-" + via, Max: 1000, End: "sweep", Steps: []E2EStep{
+			fault(req(via, "0", 0, "head", 3, 0), 2, "err"),
+			fault(req(via, "0", 2, "head", 10001, 0), 3, "err"),
+			req(via, "chain:0", 2, "last", 10001, 0),
+			fault(req(via, "chain:0", 2, "last", 10001, 0), 1, "err"),
+			req(via, "chain:0", 2, "last", 2, 0),
+			fault(req(via, "1000", 3, "head", 5, 1), 1, "err"),
+			req(via, "1000", 3, "head", 5, 1),
+		}})
+	}
+	// the boundaries of the exits before the provider is called and of the cache decision, the same through both queriers
+	for _, via := range []string{"backend", "rpc"} {
+		res = append(res, E2EReplay{Kind: "e2e", Name: "gate-boundaries-" + via, Max: 2, End: "sweep", Steps: []E2EStep{
+			req(via, "0", 0, "head", 1, 60), req(via, "0", 0, "HEAD", 1, 61), req(via, "0", 1, "head", 1, -1),
+			req(via, "0", 1, "head", 10000, 0), req(via, "0", 1, "head", 10001, 0), req(via, "0", 1, "Head", 9999, 0),
+			req(via, "0", 2, "head", 0, 0), req(via, "0", 2, "head", 0, 1), req(via, "0", 2, "head", -1, 0),
+			req(via, "0", 3, "head", 4294967299, 0), req(via, "0", 3, "TAIL", 2147483647, 0), req(via, "0", 4, "Tail", 1<<40, 0),
+			req(via, "18446744073709551615", 4, "head", 2, 1), req(via, "18446744073709551615", 4, "last", 2, 1),
+			req(via, "chain:0", 10, "last", 1, 0), req(via, "chain:0", 0, "last", 1, 1),
+			{Kind: "sweepsize"}, {Kind: "tick", N: 4},
+		}})
+	}
+	// requests that wait at the end of the data: the wait times out (1 s), is ended by a write, or meets a request for the
+	// same id; each must end with its Release and an answer
+	for _, via := range []string{"backend", "rpc"} {
+		res = append(res, E2EReplay{Kind: "e2e", Name: "wait-" + via, Max: 1000, End: "sweep", Steps: []E2EStep{
+			req(via, "0", 0, "tail", 5, 1), req(via, "busy", 0, "tail", 5, 1), req(via, "0", 2, "TAIL", 10001, 1),
+			{Kind: "wake", Part: 1},
+			req(via, "chain:0", 0, "last", 5, 1), {Kind: "tick", N: 2}, req(via, "chain:0", 0, "last", 5, 0),
+		}})
+	}
+	// the request's context is cancelled between two reads (backend.Querier passes it down to every read)
+	res = append(res, E2EReplay{Kind: "e2e", Name: "cancel-between-reads", Max: 1000, End: "stop", Steps: []E2EStep{
+		fault(req("backend", "0", 1, "head", 3, 0), 2, "cancel"),
+		fault(req("backend", "0", 3, "head", 20000, 0), 4, "cancel"),
+		req("backend", "chain:0", 3, "last", 5, 0),
+		fault(req("backend", "chain:0", 3, "head", 10000, 1), 2, "cancel"),
+		req("backend", "chain:0", 3, "head", 2, 1),
+	}})
+	return res
 }
 
 func runE2E(rp E2EReplay, replay bool) (*Case, error) {
@@ -1232,5 +1497,5 @@ func runE2E(rp E2EReplay, replay bool) (*Case, error) {
 	x.mu.Lock()
 	v := x.viol
 	x.mu.Unlock()
-	return &Case{Coq: coq, Replay: &r2, NonTrivial: x.nontriv, Oracle: v, Tags: tags, Stream: "e2e", Key: fmt.Sprintf("e2e-%d-%s-%d", rp.Seed, rp.End, rp.Max)}, nil
+	return &Case{Coq: coq, Replay: &r2, NonTrivial: x.nontriv, Oracle: v, Tags: tags, Stream: "e2e", Key: fmt.Sprintf("e2e-%s%d-%s-%d", rp.Name, rp.Seed, rp.End, rp.Max)}, nil
 }
